@@ -49,10 +49,16 @@ def subst(text, inst):
         text = text.replace('@%s@' % k, str(v))
     return text
 
-def load_units():
+def load_units(only_ready=False):
     units = []
-    root = os.path.join(VERIF, 'units')
+    root = os.environ.get('VERIF_UNITS', os.path.join(VERIF, 'units'))
+    ready = None
+    rf = os.path.join(root, 'READY.txt')
+    if only_ready and os.path.exists(rf):
+        ready = {l.strip() for l in open(rf) if l.strip() and not l.startswith('#')}
     for d in sorted(os.listdir(root)):
+        if ready is not None and d not in ready:
+            continue
         f = os.path.join(root, d, 'unit.json')
         if os.path.exists(f):
             try:
@@ -134,7 +140,7 @@ def run_instance(u, nm, inst, tier, keep=False):
     res = dict(unit=nm, label=subst(u.get('label', 'P'), inst), status='error', obligations=[],
                cmds=[], solver_s=0.0, function=subst(u.get('enforce', u.get('function', '')), inst),
                assumptions=[subst(a, inst) for a in u.get('assumptions', [])], notes=[])
-    work = tempfile.mkdtemp(prefix='vrun_', dir=os.environ.get('VERIF_TMP', None))
+    work = tempfile.mkdtemp(prefix='vr%d_' % os.getpid(), dir=os.environ.get('VERIF_TMP', None))
     res['work'] = work
     try:
         defs = BASE_DEFS + [subst(d, inst) for d in u.get('defines', [])]
@@ -394,7 +400,7 @@ def main():
     tier = 'thorough' if a.tier.startswith('t') else 'quick'
     seed = int(os.environ.get('VERIF_SEED', '0') or 0)
     t0 = time.time()
-    units = [u for u in load_units() if a.prop in u.get('properties', []) or a.prop == 'ALL']
+    units = [u for u in load_units(only_ready=not a.unit) if a.prop in u.get('properties', []) or a.prop == 'ALL']
     if a.unit:
         units = [u for u in units if u['name'] in a.unit]
     todo = []
